@@ -13,6 +13,7 @@ mod r_c07;
 mod r_c11;
 mod r_c12;
 mod r_c14;
+mod r_c15;
 mod r_c16;
 mod r_c17;
 mod r_c19;
@@ -81,6 +82,11 @@ fn main() {
     let harness = args[1].clone();
     if harness == "c11_batch" {
         r_c11::batch(&args[2]);
+        return;
+    }
+    if harness.starts_with("c15_") {
+        let out = r_c15::run(&[]);
+        print(&out, &[]);
         return;
     }
     if harness.starts_with("c07_") {
